@@ -707,7 +707,7 @@ class Exec:
 
     # ---- run what was built (C19)
     def do_run(self, prop, idx, op):
-        if prop not in ('C19', 'C01', 'C02', 'C03'):
+        if prop not in ('C19', 'C01', 'C02', 'C03', 'C12'):
             return
         real_bad = self.bad
 
@@ -719,6 +719,12 @@ class Exec:
             if prop == 'C02' and clause == 'run:order':
                 return
             if prop == 'C03' and clause != 'run:stuck':
+                return
+            if prop == 'C12' and clause not in (
+                    'run:late-start', 'run:job-not-run', 'run:raises',
+                    'run:stuck'):
+                return
+            if prop in ('C01', 'C02', 'C03') and clause == 'run:late-start':
                 return
             real_bad(prop, clause, 'after-api-history', msg, idx)
         self.bad = bad
@@ -764,6 +770,12 @@ class Exec:
                      idx)
             return
         exits, enters = {}, {}
+        t_enter, t_exit = {}, {}
+        for seq, t, kind, nid, payload in ctx.events[start:]:
+            if kind in ('enter', 'run_begin'):
+                t_enter.setdefault(nid, t)
+            elif kind in ('exit', 'over') and payload != 'cancelled':
+                t_exit.setdefault(nid, t)
         for seq, _, kind, nid, payload in ctx.events[start:]:
             if kind in ('enter', 'run_begin'):
                 if nid in enters:
@@ -796,6 +808,15 @@ class Exec:
                                  "{} ran before its requirement {} finished"
                                  .format(j, r), idx)
                         return False
+                # eager start (these schedulers have no window): a job starts
+                # in the instant its last requirement finishes
+                want = max([t_exit[r] for r in m.req[j]] or [t_enter[s]])
+                if t_enter[j] != want:
+                    self.bad('C19', 'run:late-start', '-',
+                             "{} in {} started at t={} but its last "
+                             "requirement finished at t={}".format(
+                                 j, s, t_enter[j], want), idx)
+                    return False
                 if m.kind[j] == 'sched' and not check(j, cut):
                     return False
             return True
